@@ -19,12 +19,13 @@ def sh(cmd, cwd=None, timeout=3600):
 def main():
     a = sys.argv[1:]
     sd, prop = os.path.abspath(a[0]), a[1]
-    tier = 'quick'; confirm = True; props = [prop]; only = False
+    tier = 'quick'; confirm = True; props = [prop]; only = False; corpus = False
     i = 2
     while i < len(a):
         if a[i] == '--tier': tier = a[i + 1]; i += 2
         elif a[i] == '--no-confirm': confirm = False; i += 1
         elif a[i] == '--confirm-only': only = True; i += 1
+        elif a[i] == '--save-corpus': corpus = True; i += 1
         elif a[i] == '--props': props = a[i + 1].split(','); i += 2
         else: i += 1
     patch = os.path.join(sd, 'patch.diff'); demo = os.path.join(sd, 'demo.py')
@@ -59,6 +60,19 @@ def main():
                 rc, o = sh('VERIF_REPO=%s VERIF_OUT=%s ./vcheck %s --tier %s' % (wt, outdir, p, tier), cwd=VERIF, timeout=7200)
                 lines = [l for l in o.split('\n') if l.startswith('VIOLATION') or l.startswith('KNOWN-FINDING') or 'predicate fails' in l or 'first disagreement' in l]
                 out['checks'][p] = {'rc': rc, 'wall': round(time.time() - t0, 1), 'lines': [l[:400] for l in lines[:6]]}
+                # keep the (shrunk) failing case as a corpus entry: it is replayed first on every later run of that check
+                if corpus and rc == 1:
+                    import re, glob
+                    for rp in glob.glob(os.path.join(outdir, 'replays', '%s-impl-violates-property-*.json' % p)):
+                        try:
+                            r = json.load(open(rp))
+                            if r.get('suite') and r.get('input') is not None:
+                                cdir = os.path.join(VERIF, 'corpus', p); os.makedirs(cdir, exist_ok=True)
+                                json.dump({'suite': r['suite'], 'case': r['input'], 'from_seeded_change': os.path.basename(sd), 'what': r.get('what')},
+                                          open(os.path.join(cdir, '%s.json' % os.path.basename(sd)), 'w'), indent=1)
+                                out['checks'][p]['corpus'] = True
+                        except Exception as e:
+                            out['checks'][p]['corpus_error'] = repr(e)
     finally:
         sh('git -C /repo worktree remove --force %s' % wt); shutil.rmtree(wt, ignore_errors=True); shutil.rmtree(outdir, ignore_errors=True)
     out['caught'] = any(c['rc'] == 1 for c in out['checks'].values())
